@@ -824,12 +824,24 @@ func genSizes(r *Rng, tier string, idx int) Case {
 	// pauses and sequence jumps between phases (not for rtpfb: its simulated remote peer must see
 	// every stream continuously, see the hypotheses in props/C12.json)
 	gaps := kind != "rtpfb" && r.Chance(1, 2)
+	// rtpfb with periodic feedback: in half of the cases the feedback stops for one phase (an outage of 500..2500
+	// packets — as long as the model, whose maps are association lists, can follow) and resumes in the next: the sizes
+	// are back to what they were.  Outages around and beyond one sequence-number cycle (65535 .. 140000 packets) run on
+	// the real code alone, against the theorem's bound: harness/stress/sizes_outage_test.go.
+	outageAt := -1
+	if kind == "rtpfb" && fb > 0 && r.Chance(1, 2) {
+		outageAt = r.Range(1, phases-2)
+	}
 	for i := 0; i < phases; i++ {
 		w := wl[(r0+i/2)%4] // every workload twice in a row: growth between successive equal phases
+		pn, pfb := n, fb
+		if i == outageAt {
+			pn, pfb = r.Pick(500, 1500, 2500), 0
+		}
 		if many {
-			ops = append(ops, fmt.Sprintf("phase workload=%s ssrc=1 rr=%d n=%d p=%d fb=%d", w, streams, n, p, fb))
+			ops = append(ops, fmt.Sprintf("phase workload=%s ssrc=1 rr=%d n=%d p=%d fb=%d", w, streams, pn, p, pfb))
 		} else {
-			ops = append(ops, fmt.Sprintf("phase workload=%s ssrc=%d n=%d p=%d fb=%d", w, 1+(i%streams), n, p, fb))
+			ops = append(ops, fmt.Sprintf("phase workload=%s ssrc=%d n=%d p=%d fb=%d", w, 1+(i%streams), pn, p, pfb))
 		}
 		if gaps && r.Chance(1, 3) {
 			ops = append(ops, fmt.Sprintf("jump ssrc=%d d=%d", r.Range(1, streams), r.Pick(100, 700, 3000, 20000, 40000)))
